@@ -25,8 +25,8 @@ type pipeCase struct {
 	Policy  string   `json:"policy"`
 	Delim   int      `json:"delim"`
 	Stream  []seg    `json:"stream"`
-	Writes  [][2]int `json:"writes"`    // (size, count) in order; sizes add up to the stream length
-	SleepAt []int    `json:"sleep_at"`  // indices of writes after which the writer pauses
+	Writes  [][2]int `json:"writes"`   // (size, count) in order; sizes add up to the stream length
+	SleepAt []int    `json:"sleep_at"` // indices of writes after which the writer pauses
 	SleepUs int      `json:"sleep_us"`
 	FailAt  int      `json:"fail_at"`
 }
